@@ -1,1 +1,140 @@
-From Wz Require Import lib.Bytes C01.Gen C01.Model.
+(* C01 / C10 proofs, stage 1: buffer monotonicity, limits are guards. *)
+From Coq Require Import ZArith Lia ZifyBool ZifyN ZifyNat.
+From Wz Require Import lib.Bytes lib.BytesFacts C01.Gen C01.Model C01.Pins.
+Open Scope N_scope.
+
+Lemma skipn_length_le (A : Type) n (l : list A) : (length (skipn n l) <= length l)%nat.
+Proof. rewrite skipn_length. lia. Qed.
+
+Lemma fail_if_complete_ok c r x : fail_if_complete c r = Ok x -> x = r.
+Proof.
+  unfold fail_if_complete. destruct (fst r); try (intro H; inversion H; reflexivity).
+  destruct (complete c); intro H; inversion H; reflexivity.
+Qed.
+
+(* next_event never grows the buffer, never touches the limits' counters except nparts *)
+Lemma next_event_buf_le lim B c ev c' :
+  next_event lim B c = Ok (ev, c') -> (length (buf c') <= length (buf c))%nat.
+Proof.
+  unfold next_event. destruct (st c).
+  - destruct (search_delim true B (buf c) (spos c)) as [[[ms me] fin]|].
+    + intro H. inversion H. subst. cbn [buf]. apply skipn_length_le.
+    + intro H. apply fail_if_complete_ok in H. inversion H. subst. cbn [buf]. lia.
+  - destruct (search_blank (buf c) (spos c)) as [[ms me]|].
+    + destruct (max_parts lim) as [m|].
+      * destruct (Nat.ltb m (S (nparts c))); intro H; inversion H. subst. cbn [buf]. apply skipn_length_le.
+      * intro H; inversion H. subst. cbn [buf]. apply skipn_length_le.
+    + intro H. apply fail_if_complete_ok in H. inversion H. subst. cbn [buf]. lia.
+  - destruct (parse_data B (buf c) false DATA) as [[[[d del] more] s']|e]; [|discriminate].
+    destruct d as [|d0 dr].
+    + destruct more.
+      * intro H. apply fail_if_complete_ok in H. inversion H. subst. cbn [buf]. apply skipn_length_le.
+      * intro H. inversion H. subst. cbn [buf]. apply skipn_length_le.
+    + intro H. inversion H. subst. cbn [buf]. apply skipn_length_le.
+  - destruct (parse_data B (buf c) true DATA_START) as [[[[d del] more] s']|e]; [|discriminate].
+    destruct (Nat.eqb del 0).
+    + intro H. apply fail_if_complete_ok in H. inversion H. subst. lia.
+    + intro H. inversion H. subst. cbn [buf]. apply skipn_length_le.
+  - destruct (complete c); intro H; inversion H; subst; cbn [buf length]; lia.
+  - intro H. apply fail_if_complete_ok in H. inversion H. subst. lia.
+Qed.
+
+Lemma next_event_nparts lim B c ev c' m :
+  next_event lim B c = Ok (ev, c') -> max_parts lim = Some m ->
+  (nparts c <= m)%nat -> (nparts c' <= m)%nat.
+Proof.
+  unfold next_event. intros H Hm Hle. destruct (st c).
+  - destruct (search_delim true B (buf c) (spos c)) as [[[ms me] fin]|].
+    + inversion H. subst. exact Hle.
+    + apply fail_if_complete_ok in H. inversion H. subst. exact Hle.
+  - destruct (search_blank (buf c) (spos c)) as [[ms me]|].
+    + rewrite Hm in H. destruct (Nat.ltb m (S (nparts c))) eqn:E; inversion H. subst. cbn [nparts].
+      apply Nat.ltb_ge in E. exact E.
+    + apply fail_if_complete_ok in H. inversion H. subst. exact Hle.
+  - destruct (parse_data B (buf c) false DATA) as [[[[d del] more] s']|e]; [|discriminate].
+    destruct d as [|d0 dr].
+    + destruct more.
+      * apply fail_if_complete_ok in H. inversion H. subst. exact Hle.
+      * inversion H. subst. exact Hle.
+    + inversion H. subst. exact Hle.
+  - destruct (parse_data B (buf c) true DATA_START) as [[[[d del] more] s']|e]; [|discriminate].
+    destruct (Nat.eqb del 0).
+    + apply fail_if_complete_ok in H. inversion H. subst. exact Hle.
+    + inversion H. subst. exact Hle.
+  - destruct (complete c); inversion H; subst; exact Hle.
+  - apply fail_if_complete_ok in H. inversion H. subst. exact Hle.
+Qed.
+
+(* every configuration a run can be in *)
+Inductive reach (lim : limits) (B : bytes) : cfg -> Prop :=
+| r_init : reach lim B init
+| r_recv c d c' : reach lim B c -> receive lim c d = Ok c' -> reach lim B c'
+| r_end c : reach lim B c -> reach lim B (receive_end c)
+| r_next c ev c' : reach lim B c -> next_event lim B c = Ok (ev, c') -> reach lim B c'.
+
+Theorem buffer_bound lim B c m :
+  reach lim B c -> max_mem lim = Some m -> (length (buf c) <= m)%nat.
+Proof.
+  intros Hr Hm. induction Hr as [|c d c' _ IH Hrecv|c _ IH|c ev c' _ IH Hn].
+  - cbn. lia.
+  - unfold receive in Hrecv. rewrite Hm in Hrecv.
+    destruct (Nat.ltb m (length (buf c) + length d)) eqn:E; inversion Hrecv. subst. cbn [buf].
+    rewrite app_length. apply Nat.ltb_ge in E. exact E.
+  - exact IH.
+  - apply next_event_buf_le in Hn. lia.
+Qed.
+
+Theorem parts_bound lim B c m :
+  reach lim B c -> max_parts lim = Some m -> (nparts c <= m)%nat.
+Proof.
+  intros Hr Hm. induction Hr as [|c d c' _ IH Hrecv|c _ IH|c ev c' _ IH Hn].
+  - cbn. lia.
+  - unfold receive in Hrecv.
+    destruct (max_mem lim) as [mm|]; [destruct (Nat.ltb mm (length (buf c) + length d))|];
+      inversion Hrecv; subst; exact IH.
+  - exact IH.
+  - eapply next_event_nparts; eassumption.
+Qed.
+
+(* limits are pure guards: a run that succeeds under limits is the unlimited run *)
+Lemma receive_guard lim c d c' : receive lim c d = Ok c' -> receive no_limits c d = Ok c'.
+Proof.
+  unfold receive. cbn [max_mem no_limits].
+  destruct (max_mem lim) as [m|]; [destruct (Nat.ltb m (length (buf c) + length d))|]; intro H;
+    inversion H; reflexivity.
+Qed.
+
+Lemma next_event_guard lim B c x : next_event lim B c = Ok x -> next_event no_limits B c = Ok x.
+Proof.
+  unfold next_event. destruct (st c); try (intro H; exact H).
+  destruct (search_blank (buf c) (spos c)) as [[ms me]|]; [|intro H; exact H].
+  cbn [max_parts no_limits].
+  destruct (max_parts lim) as [m|]; [destruct (Nat.ltb m (S (nparts c)))|]; intro H;
+    inversion H; reflexivity.
+Qed.
+
+Lemma drain_guard fuel lim B c x : drain fuel lim B c = Ok x -> drain fuel no_limits B c = Ok x.
+Proof.
+  revert c x. induction fuel as [|f IH]; intros c x; cbn [drain]; [discriminate|].
+  destruct (next_event lim B c) as [[ev c']|e] eqn:E; [|discriminate].
+  rewrite (next_event_guard _ _ _ _ E).
+  destruct ev; try (intro H; exact H);
+    (destruct (drain f lim B c') as [[evs c'']|e] eqn:E2; [|discriminate];
+     rewrite (IH _ _ E2); intro H; exact H).
+Qed.
+
+Lemma feed_guard lim B chunks c r : feed lim B c chunks = Ok r -> feed no_limits B c chunks = Ok r.
+Proof.
+  revert c r. induction chunks as [|d rest IH]; intros c r; cbn [feed].
+  - destruct (drain (drain_fuel (receive_end c)) lim B (receive_end c)) as [[evs c']|e] eqn:E; [|discriminate].
+    rewrite (drain_guard _ _ _ _ _ E). intro H; exact H.
+  - destruct (receive lim c d) as [c1|e] eqn:E1; [|discriminate].
+    rewrite (receive_guard _ _ _ _ E1).
+    destruct (drain (drain_fuel c1) lim B c1) as [[evs c2]|e] eqn:E2; [|discriminate].
+    rewrite (drain_guard _ _ _ _ _ E2).
+    destruct (feed lim B c2 rest) as [evs'|e] eqn:E3; [|discriminate].
+    rewrite (IH _ _ E3). intro H; exact H.
+Qed.
+
+Theorem pure_guard lim B chunks r : drive lim B chunks = Ok r -> drive no_limits B chunks = Ok r.
+Proof. apply feed_guard. Qed.
